@@ -353,13 +353,15 @@ Definition conv_style (v : option fval) : res (option bool) :=
   end.
 
 Definition parse_args_kw (d : dict) : res atts :=
-  (* if 'style' in kwargs: args += (kwargs['style'],) -- the value is True or a colour name here:
-     a non-str arg raises ValueError, and so does a colour name met a second time / an unknown name;
-     no table of the current tree has a key 'style', so this branch is dead (from_str_total) *)
-  if (match kw_get d key_style with Some _ => true | None => false end)
-  then Raise ValueError
+  (* if 'style' in kwargs: args += (kwargs['style'],); a value True is a non-str arg: ValueError.
+     (A name as value cannot arise: only the literal keys 'fg' / 'bg' carry names; not modelled.)
+     No table of the current tree has a key 'style', so this branch is dead (from_str_total). *)
+  match kw_get d key_style with
+  | Some VTrue => Raise ValueError
+  | Some _ => Raise OtherError
+  | None =>
   (* for k in kwargs: if k not in ('fg', 'bg') and k not in STYLES.keys(): raise ValueError *)
-  else if negb (forallb (fun k => match kw_get d k with
+  if negb (forallb (fun k => match kw_get d k with
                                   | None => true
                                   | Some _ => str_eqb k key_fg || str_eqb k key_bg || in_keys k styles
                                   end) (map fst d))
@@ -373,7 +375,8 @@ Definition parse_args_kw (d : dict) : res atts :=
     bind (conv_style (kw_get d (style_name Underline))) (fun u =>
     bind (conv_style (kw_get d (style_name Blink))) (fun bl =>
     bind (conv_style (kw_get d (style_name Invert))) (fun inv =>
-    Ok (mkAtts fg bg b dk i u bl inv))))))))).
+    Ok (mkAtts fg bg b dk i u bl inv)))))))))
+  end.
 
 (* ---- FmtStr.from_str --------------------------------------------------------------------------- *)
 (* '\x1b[' in s *)
